@@ -129,7 +129,12 @@ fn probe_eq(func: &str) -> bool {
     let base = Cal::new(vec![ndt(2015, 9, 7)], vec![5, 6]);
     let late = Cal::new(vec![ndt(2015, 9, 7), ndt(2200, 12, 31)], vec![5, 6]); // differs on the very last day only (a Wednesday)
     let early = Cal::new(vec![ndt(2015, 9, 7), ndt(1970, 1, 1)], vec![5, 6]); // differs on the very first day only (a Thursday)
-    let cals = vec![("base", base.clone()), ("base+2200-12-31", late), ("base+1970-01-01", early), ("fixture1", fx[1].clone())];
+    // calendars that differ from `base` only on base's weekend days (week mask), and one that differs on Fridays only
+    let no_weekend = Cal::new(vec![ndt(2015, 9, 7)], vec![]);
+    let long_weekend = Cal::new(vec![ndt(2015, 9, 7)], vec![4, 5, 6]);
+    let sunday_only = Cal::new(vec![ndt(2015, 9, 7)], vec![6]);
+    let cals = vec![("base", base.clone()), ("base+2200-12-31", late), ("base+1970-01-01", early), ("fixture1", fx[1].clone()),
+                    ("base without weekend", no_weekend), ("base with Fri-Sat-Sun weekend", long_weekend), ("base with Sunday-only weekend", sunday_only)];
     let mut unions: Vec<(String, UnionCal)> = Vec::new();
     for (n, c) in &cals {
         unions.push((format!("Union([{}])", n), UnionCal::new(vec![c.clone()], None)));
@@ -137,6 +142,7 @@ fn probe_eq(func: &str) -> bool {
     unions.push(("Union([base] | [fixture1])".into(), UnionCal::new(vec![base.clone()], Some(vec![fx[1].clone()]))));
     unions.push(("Union([base, base])".into(), UnionCal::new(vec![base.clone(), base.clone()], None)));
     unions.push(("Union([base] | [])".into(), UnionCal::new(vec![base.clone()], Some(vec![]))));
+    unions.push(("Union([base] | [base])".into(), UnionCal::new(vec![base.clone()], Some(vec![base.clone()]))));   // differs from Union([base]) in is_settlement on weekends only
     for (na, a) in &unions {
         for (nb, b) in &unions {
             let exp = agree(a, b);
@@ -156,6 +162,16 @@ fn probe_eq(func: &str) -> bool {
                 report("probe", func, &format!("Cal {} == {}", nc, na), &(c == a).to_string(), &exp.to_string(), false);
                 return true;
             }
+        }
+    }
+    {
+        // "bus" (Mon-Fri, no holidays) and "all" (every day) differ on Saturdays and Sundays only
+        let nb = NamedCal::try_new("bus").unwrap();
+        let all = get_calendar_by_name("all").unwrap();
+        let exp = agree(&nb, &all);
+        if (nb == all) != exp || (all == nb) != exp {
+            report("probe", func, "NamedCal(\"bus\") == Cal all (both directions)", &format!("{} / {}", nb == all, all == nb), &exp.to_string(), false);
+            return true;
         }
     }
     for name in ["tgt,ldn|fed", "ldn,tgt|fed", "tgt", "tgt|tgt", "nyc", "fed"] {
